@@ -168,7 +168,7 @@ func runPQConc(rep *Report) {
 				rep.Markers[k] += v
 			}
 			if tw != nil {
-				fmt.Fprintf(tw, "program %d seed=%d\n%send\n", i, ps, sys.TraceLines())
+				fmt.Fprintf(tw, "program %d seed=%d\ncfg ps=%d max=%d wb=%d\n%send\n", i, ps, cfg.PageSize, cfg.MaxPages, cfg.WriteBuffer, sys.TraceLines())
 			}
 		}
 		if res.Events > 20 {
